@@ -9,8 +9,11 @@
     the generators; see harness/props/c20.py):
       - index_name (always None here), title/legend/format attributes
         (the title only as the explicit argument of [appended]);
-      - float cells; numpy dtype coercions (a column's dtype is taken to be
-        the one numpy infers from its cells, see [dtype_of]);
+      - floats are the decimals their repr() shows ([CF m e] = m * 10^e); float
+        arithmetic is not modelled (only comparison, equality, negation, repr);
+        numpy dtype coercions: a column's dtype is taken to be the one numpy
+        infers from its cells, see [dtype_of]; a list holding ints and floats
+        is held by numpy as floats, see [coerce_col];
       - column names are assumed stripped ([Columns.__setitem__] does
         [str(key).strip()]);
       - a natural join without shared column names goes through [sub_array t []],
@@ -21,14 +24,18 @@
         insertion sort (any stable sort gives the same list, Lib/StableSort.v).
 
     No proofs in this file. *)
+From Coq Require Import QArith.
 From CG3 Require Import Lib.PyZ Lib.Chars Lib.StableSort Lib.Val.
 Import ListNotations.
+Open Scope Z_scope.
 
 Inductive cell :=
 | CI (z : Z)        (* int *)
 | CS (s : str)      (* str *)
 | CB (b : bool)     (* bool *)
-| CN.               (* None *)
+| CN                (* None *)
+| CF (m e : Z).     (* float, as the decimal m * 10^e its repr() shows (shortest round-trip decimal);
+                       the harness passes m without trailing zeros (m = 0 -> e = 0) *)
 
 Inductive res (A : Type) := Ok (a : A) | Er (e : Z).
 Arguments Ok {A} a.
@@ -45,15 +52,27 @@ Definition E_Runtime : Z := 9.
 
 Definition b2z (b : bool) : Z := if b then 1 else 0.
 
-(* x == y for the objects found in cells: True == 1, False == 0 *)
+(* the number a cell denotes (bool is an int subclass) *)
+Definition dec_q (m e : Z) : Q := (inject_Z m * Qpower (10 # 1) e)%Q.
+
+Definition cell_q (c : cell) : option Q :=
+  match c with
+  | CI z => Some (inject_Z z)
+  | CB b => Some (inject_Z (b2z b))
+  | CF m e => Some (dec_q m e)
+  | _ => None
+  end.
+
+(* x == y for the objects found in cells: numbers by value (True == 1 == 1.0) *)
 Definition cell_eqb (a b : cell) : bool :=
-  match a, b with
-  | CI x, CI y => x =? y
-  | CI x, CB y => x =? b2z y
-  | CB x, CI y => b2z x =? y
-  | CB x, CB y => Bool.eqb x y
-  | CS x, CS y => str_eqb x y
-  | CN, CN => true
+  match cell_q a, cell_q b with
+  | Some x, Some y => Qeq_bool x y
+  | None, None =>
+      match a, b with
+      | CS x, CS y => str_eqb x y
+      | CN, CN => true
+      | _, _ => false
+      end
   | _, _ => false
   end.
 
@@ -242,6 +261,31 @@ Definition joined (self other : table) (cs co : option (list str)) (inner : bool
        | _, _ => Er E_Assert
        end.
 
+(* ------------------------------------------------------------------ cast_to_array l.139-155 on a list of values *)
+
+(* float(z) as the decimal its repr shows: trailing zeros go to the exponent *)
+Fixpoint strip10 (fuel : nat) (m e : Z) : Z * Z :=
+  match fuel with
+  | O => (m, e)
+  | S f => if m =? 0 then (0, 0) else if m mod 10 =? 0 then strip10 f (m / 10) (e + 1) else (m, e)
+  end.
+
+Definition norm_dec (m e : Z) : Z * Z := strip10 (S (Z.to_nat (Z.log2 (Z.abs m)))) m e.
+
+Definition to_float (c : cell) : cell :=
+  match c with
+  | CI z => let me := norm_dec z 0 in CF (fst me) (snd me)
+  | other => other
+  end.
+
+Definition is_num_cell (c : cell) : bool := match c with CI _ => true | CF _ _ => true | _ => false end.
+Definition is_float_cell (c : cell) : bool := match c with CF _ _ => true | _ => false end.
+
+(* numpy.array(values) of Python ints and floats is a float array; any other mix is kept as it is
+   (object / str / bool / int arrays hold the values given) *)
+Definition coerce_col (v : list cell) : list cell :=
+  if forallb is_num_cell v && existsb is_float_cell v then map to_float v else v.
+
 (* ------------------------------------------------------------------ row selection l.1082-1177 *)
 
 Definition default_cols (t : table) (columns : option (list str)) : list str :=
@@ -285,7 +329,7 @@ Definition with_new_column (t : table) (new_column : str) (cb : list cell -> cel
   let keep := map (fun c => negb (str_eqb c new_column)) (hdr t) in
   bind (set_cols empty_table (mask_take keep (hdr t)) (mask_take keep (cols t))) (fun result =>
     bind (sub_array t (default_cols t columns)) (fun rows =>
-      set_col result new_column (map cb rows))).
+      set_col result new_column (coerce_col (map cb rows)))).
 
 (* ------------------------------------------------------------------ appended l.1212-1272 *)
 
@@ -310,7 +354,8 @@ Definition appended (self : table) (new_column : option str) (titled : list (str
   if match new_column with Some n => mem_str n (hdr self) | None => false end then Er E_Assert
   else if negb (forallb (fun t => same_set (hdr t) (hdr self)) tables) then Er E_Assert
   else
-    bind (concat_all tables (hdr self)) (fun data =>
+    bind (concat_all tables (hdr self)) (fun data0 =>
+      let data := map coerce_col data0 in
       match new_column with
       | Some n =>
           let new_col := flat_map (fun tt => repeat (CS (fst tt)) (nrows (snd tt))) titled in
@@ -335,12 +380,36 @@ Definition s_True : str := [84; 114; 117; 101].
 Definition s_False : str := [70; 97; 108; 115; 101].
 Definition s_None : str := [78; 111; 110; 101].
 
+(* repr(float) (CPython float_repr_style 'short', format code 'r'): digits of the shortest decimal,
+   fixed notation when -4 < decpt <= 16, else d[.ddd]e+XX *)
+Definition zeros (k : Z) : str := repeat 48 (Z.to_nat k).
+
+Definition exp_str (x : Z) : str :=
+  (if x <? 0 then 45 else 43) :: (if Z.abs x <? 10 then 48 :: nat_str (Z.abs x) else nat_str (Z.abs x)).
+
+Definition float_str (m e : Z) : str :=
+  let ds := nat_str (Z.abs m) in
+  let n := zlen ds in
+  let decpt := n + e in
+  let body :=
+    if (-4 <? decpt) && (decpt <=? 16) then
+      if decpt <=? 0 then [48; 46] ++ zeros (- decpt) ++ ds
+      else if n <=? decpt then ds ++ zeros (decpt - n) ++ [46; 48]
+      else firstn (Z.to_nat decpt) ds ++ 46 :: skipn (Z.to_nat decpt) ds
+    else
+      match ds with
+      | d1 :: rest => d1 :: (match rest with [] => [] | _ => 46 :: rest end) ++ 101 :: exp_str (decpt - 1)
+      | [] => []
+      end in
+  if m <? 0 then 45 :: body else body.
+
 Definition cell_str (c : cell) : str :=
   match c with
   | CI z => z_str z
   | CS s => s
   | CB b => if b then s_True else s_False
   | CN => s_None
+  | CF m e => float_str m e
   end.
 
 (* ------------------------------------------------------------------ transposed l.2072-2108 *)
@@ -361,27 +430,29 @@ Definition transposed (t : table) (new_column_name : str) (select_as_header : op
             bind (sub_array t columns) (fun data =>
               bind (set_col empty_table new_column_name (map CS (tl columns))) (fun result =>
                 fold_left (fun acc row =>
-                             bind acc (fun r => set_col r (cell_str (hd CN row)) (tl row)))
+                             bind acc (fun r => set_col r (cell_str (hd CN row)) (coerce_col (tl row))))
                           data (Ok result))))
   end.
 
 (* ------------------------------------------------------------------ sorted l.1461-1520 *)
 
-Inductive dtype := DInt | DStr | DBool | DObj.
+Inductive dtype := DInt | DFloat | DStr | DBool | DObj.
 
 Definition is_CI c := match c with CI _ => true | _ => false end.
 Definition is_CS c := match c with CS _ => true | _ => false end.
 Definition is_CB c := match c with CB _ => true | _ => false end.
+Definition is_CF c := match c with CF _ _ => true | _ => false end.
 
 (* the dtype numpy gives a non-empty column (cast_to_array l.139-155) *)
 Definition dtype_of (c : list cell) : dtype :=
-  if forallb is_CI c then DInt else if forallb is_CS c then DStr
+  if forallb is_CI c then DInt else if forallb is_CF c then DFloat else if forallb is_CS c then DStr
   else if forallb is_CB c then DBool else DObj.
 
 (* _reverse_num: x * -1 (only ever applied to numeric columns) *)
 Definition reverse_cell (c : cell) : cell :=
   match c with
   | CI z => CI (z * -1)
+  | CF m e => CF (m * -1) e
   | other => other
   end.
 
@@ -399,13 +470,19 @@ Fixpoint list_cmp {A} (cmp : A -> A -> comparison) (a b : list A) : comparison :
 Definition str_cmp : str -> str -> comparison := list_cmp Z.compare.
 
 Definition cell_rank (c : cell) : Z :=
-  match c with CN => 0 | CB _ => 1 | CI _ => 2 | CS _ => 3 end.
+  match c with CN => 0 | CB _ => 1 | CI _ => 2 | CF _ _ => 3 | CS _ => 4 end.
 
 Definition cell_cmp (a b : cell) : comparison :=
   match a, b with
   | CI x, CI y => x ?= y
   | CS x, CS y => str_cmp x y
   | CB x, CB y => b2z x ?= b2z y
+  | CF m1 e1, CF m2 e2 =>
+      (* floats by value; the structural tie-break only makes the order total on non-normalised pairs *)
+      match Qcompare (dec_q m1 e1) (dec_q m2 e2) with
+      | Eq => match e1 ?= e2 with Eq => m1 ?= m2 | r => r end
+      | r => r
+      end
   | _, _ => cell_rank a ?= cell_rank b
   end.
 
@@ -472,6 +549,7 @@ Definition reverse_step (t : table) (columns : list str) (data : res (list (list
         bind (get_col t c) (fun orig =>
           match dtype_of orig with
           | DInt => Ok (map (fun jc => if Nat.eqb (fst jc) i then map reverse_cell (snd jc) else snd jc) (enumerate d))
+          | DFloat => Ok (map (fun jc => if Nat.eqb (fst jc) i then map reverse_cell (snd jc) else snd jc) (enumerate d))
           | DStr => Ok (set_nth i (map (neg_rank_cell orig) orig) d)
           | DBool => Ok (set_nth i (map (neg_rank_cell orig) orig) d)
           | DObj => Er E_NotModelled
